@@ -1,5 +1,6 @@
 import Pxv.Lemmas.Order
 import Pxv.Lemmas.Borrow
+import Pxv.Lemmas.StageMoves
 /-!
 C01 — accepted blueprints yield an SDK that compiles: the ownership part.
 
@@ -290,3 +291,107 @@ example : isRun witnessGraph [5, 4, 1, 3, 2, 0, 6] = true ∧ exclClean witnessG
     ownCheck witnessGraph [5, 4, 1, 3, 2, 0, 6] (List.range 7) = true := by decide
 
 end Pxv.CG
+
+
+/-! ### across the middlewares of one stage (pipeline.rs step 4, `type2cloning_indexes`)
+
+Each call graph is borrow-checked on its own; a request-scoped value that several middlewares of one stage (pre-processors,
+the handler / next stage, post-processors) take is handed to each of them by the generated stage function, which passes
+`value.clone()` at the indexes step 4 computes and the value itself elsewhere. `stageCloning` (Model/Scope.lean) mirrors
+that analysis and is compared with the real one on every stage of every generated application (hook 64e5e26, ev = stage4). -/
+namespace Pxv.Scope
+
+/-- **no use after the move, across a stage**: when step 4 accepts a stage, a middleware that is handed a non-Copy value
+    itself (it takes the type by value and its index is not among the cloning indexes of that type) is the last
+    middleware of the stage to touch that type: no later one takes it, by value or by reference. For every number of
+    middlewares, every mix of types and every pattern of by-value / by-reference inputs. -/
+theorem stage_moves_sound (mws : List (List StageInput)) (t : List (Nat × List Nat))
+    (h : stageCloning mws = .ok t)
+    (i : Nat) (mwi : List StageInput) (inp : StageInput) (hi : mws[i]? = some mwi) (hin : inp ∈ mwi)
+    (hval : inp.byRef = false)
+    (hcopy : ∀ e ∈ collectAll [] 0 mws, e.1 = inp.ty → e.2.copy = false)
+    (hnot : ∀ idxs, (inp.ty, idxs) ∈ t → i ∉ idxs) :
+    ∀ (j : Nat) (mwj : List StageInput) (inp' : StageInput), i < j → mws[j]? = some mwj → inp' ∈ mwj →
+      inp'.ty ≠ inp.ty := by
+  -- everything the stage hands out has been recorded
+  obtain ⟨k', hC⟩ := collectAll_complete mws 0 (fun _ _ => False) [] complete_empty (fun _ _ hp => hp.elim)
+  have hP : ∀ (a : Nat) (mw : List StageInput) (x : StageInput), mws[a]? = some mw → x ∈ mw →
+      (False ∨ ∃ d mw', mws[d]? = some mw' ∧ a = 0 + d ∧ x ∈ mw') :=
+    fun a mw x ha hx => Or.inr ⟨a, mw, ha, by omega, hx⟩
+  obtain ⟨e, he, hek, c, hc⟩ := hC.vals i inp (hP i mwi inp hi hin) hval
+  -- its entry is not an error, and (i, c) is not among the consumers that get a clone
+  rw [stageCloning_eq] at h
+  have hok := (foldl_stageStep_ok _ [] t h).2 e he
+  have hcp := hcopy e he hek
+  have hout : (i, c) ∉ consumersOf e.2 := by
+    intro hmem
+    rcases hok with hnone | ⟨idxs, hsome, hidx⟩
+    · unfold cloningFor at hnone
+      rw [hcp] at hnone
+      simp only [Bool.false_eq_true, if_false] at hnone
+      split at hnone
+      · rename_i hemp
+        rw [List.isEmpty_iff] at hemp
+        rw [hemp] at hmem; cases hmem
+      · split at hnone <;> cases hnone
+    · have hidxs : idxs = (consumersOf e.2).map (·.1) := by
+        unfold cloningFor at hsome
+        rw [hcp] at hsome
+        simp only [Bool.false_eq_true, if_false] at hsome
+        split at hsome
+        · cases hsome
+        · split at hsome
+          · cases hsome
+          · simpa using hsome.symm
+      apply hnot idxs (hek ▸ hidx)
+      rw [hidxs]
+      exact List.mem_map.mpr ⟨(i, c), hmem, rfl⟩
+  obtain ⟨hlast, hrefs⟩ := not_consumer_is_last (hC.sorted e he).1 (hC.sorted e he).2 hc hout
+  -- a later access of the same type contradicts one of the two
+  intro j mwj inp' hij hj hinj hty
+  by_cases hr : inp'.byRef = true
+  · have := hC.refs e he (i, c) hc j inp' (hP j mwj inp' hj hinj) hij (by rw [hty, hek]) hr
+    have := hrefs j this
+    simp only at this
+    omega
+  · have hr' : inp'.byRef = false := by simpa using hr
+    obtain ⟨e', he', hek', c', hc'⟩ := hC.vals j inp' (hP j mwj inp' hj hinj) hr'
+    have hee : e' = e := hC.uniq e' he' e he (by rw [hek', hty, hek])
+    rw [hee] at hc'
+    have := hlast (j, c') hc'
+    simp only at this
+    omega
+
+-- Non-vacuity: move, borrow, move, borrow of one clone-if-necessary type: both movers get a clone (the second one only
+-- because of the trailing borrow); move, borrow, move: only the first; and the hypotheses of the theorem are met by
+-- the last mover of the second stage.
+def exMBMB : List (List StageInput) :=
+  [[⟨0, false, true, false⟩], [⟨0, true, false, false⟩], [⟨0, false, true, false⟩], [⟨0, true, false, false⟩]]
+def okView (r : Except Nat (List (Nat × List Nat))) : Option (List (Nat × List Nat)) :=
+  match r with | .ok t => some t | .error _ => none
+theorem okView_some {r : Except Nat (List (Nat × List Nat))} {t : List (Nat × List Nat)} (h : okView r = some t) : r = .ok t := by
+  cases r with
+  | ok t' => simp only [okView, Option.some.injEq] at h; rw [h]
+  | error e => simp [okView] at h
+example : stageCloning exMBMB = .ok [(0, [0, 2])] := okView_some (by decide)
+example : stageCloning (exMBMB.take 3) = .ok [(0, [0])] ∧
+    (∀ e ∈ collectAll [] 0 (exMBMB.take 3), e.1 = 0 → e.2.copy = false) ∧
+    (∀ idxs, ((0 : Nat), idxs) ∈ [((0 : Nat), [(0 : Nat)])] → 2 ∉ idxs) := by
+  refine ⟨okView_some (by decide), by decide, ?_⟩
+  intro idxs h
+  simp only [List.mem_singleton, Prod.mk.injEq, true_and] at h
+  subst h; decide
+/-- what a seeded change did (C01-4): decide whether the last mover needs a clone by looking at the FIRST recorded borrow
+    instead of the last one. On move, borrow, move, borrow the last mover then gets the value itself although a
+    later middleware borrows it: `stage_moves_sound` fails for that variant. -/
+def consumersOfFirst (ci : CloningInfo) : List (Nat × Bool) :=
+  match ci.refBy.head? with
+  | some r =>
+    match ci.consumedBy.getLast? with
+    | some last => if r < last.1 then ci.consumedBy.dropLast else ci.consumedBy
+    | none => ci.consumedBy
+  | none => ci.consumedBy.dropLast
+example : ((collectAll [] 0 exMBMB).map (fun e => ((consumersOfFirst e.2).map (·.1), (consumersOf e.2).map (·.1)))) =
+    [([0], [0, 2])] := by decide
+
+end Pxv.Scope
